@@ -38,6 +38,10 @@ def fold_diags(chk, results, pid, shard_paths=None):
             if d.get("prop") != pid:
                 others[d.get("prop")] = others.get(d.get("prop"), 0) + 1
                 continue
+            if len(chk.violations) > 300:
+                # a change that breaks (nearly) everything: the rest is only counted, without context
+                chk.violations.append(chk.violations[-1])
+                continue
             case = {"trace_shard": r.get("trace"), "line": d.get("l"), "module": r["module"], "diag": d}
             try:
                 if r.get("trace") and d.get("l"):
@@ -632,7 +636,7 @@ def check_movevalue(pid, tier, seed):
     nev = sum(r["accepted"] or 0 for r in res)
     first = json.loads(open(path).readline())
     chk.coverage.update({"evaluations": info["moves"], "distinct_nontrivial": info["moves"], "exhaustive": True, "events_validated": nev,
-                         "rule": "the whole constructor domain: 2 colours x 6 kinds x 64 origins x 64 destinations x {no capture, 5 kinds} x {no promotion, 4 kinds} through by_moving/by_capturing/by_promoting/by_capture_promoting, all 2x64x64 by_en_passant values and the 4 castling values; each value built twice (equality), compared with its neighbour (inequality), serialised through ciborium and read back; raw values pairwise distinct per event; every value is a distinct case",
+                         "rule": "the whole constructor domain: 2 colours x 6 kinds x 64 origins x 64 destinations x {no capture, 5 kinds} x {no promotion, 4 kinds} through by_moving/by_capturing/by_promoting/by_capture_promoting, all 2x64x64 by_en_passant values and the 4 castling values; each value built twice (equality), compared in both directions with every value that differs from it in exactly one attribute (inequality), serialised through ciborium and read back; raw values pairwise distinct per event; every value is a distinct case",
                          "samples": [{"ctor": first["ctor"], "color": first["color"], "piece": first["piece"], "from": first["from"], "strs": first["strs"][:4]}],
                          "traces_validated_against_impl": len(shards)})
     chk.finish()
